@@ -392,6 +392,58 @@ def r19(src, counts):
     return ''.join(out)
 
 
+def r20(src, counts):
+    """Allocation sites get a verified wrapper whose only addition is a precondition on the size (prelude `crate::mem`):
+    `vec![E; N]` -> `crate::mem::vec_filled(E, N)`, `Vec::with_capacity(N)` -> `crate::mem::vec_with_capacity(N)`,
+    `X.resize(N, V)` -> `crate::mem::vec_resize(&mut X, N, V)`, `X.reserve(N)` / `X.reserve_exact(N)` ->
+    `crate::mem::vec_reserve(&mut X, N)`.  The wrappers' bodies are the original calls (verified against vstd's
+    specifications of them), so nothing but the obligation `alloc_ok(N)` is added."""
+    m = mask(src)
+    out = []
+    last = 0
+    pat = re.compile(r'\bvec!\[|\bVec::with_capacity\(|((?:\b[\w]+(?:\.[\w]+)*))\.(resize|reserve|reserve_exact)\(')
+    for mo in pat.finditer(m):
+        if mo.start() < last:
+            continue
+        tok = mo.group(0)
+        if tok == 'vec![':
+            ob = mo.end() - 1
+            cb = match_close(m, ob, '[', ']')
+            inner = src[ob + 1:cb]
+            mi = m[ob + 1:cb]
+            # top-level `;` separates element and count; `vec![]` and `vec![a, b, c]` are left alone
+            depth, semi = 0, -1
+            for k, ch in enumerate(mi):
+                if ch in '([{':
+                    depth += 1
+                elif ch in ')]}':
+                    depth -= 1
+                elif ch == ';' and depth == 0:
+                    semi = k
+                    break
+            if semi < 0:
+                continue
+            out.append(src[last:mo.start()])
+            out.append('crate::mem::vec_filled(%s, %s)' % (inner[:semi].strip(), inner[semi + 1:].strip()))
+            last = cb + 1
+            counts['R20.alloc_site'] += 1
+        elif tok.startswith('Vec::with_capacity('):
+            out.append(src[last:mo.start()])
+            out.append('crate::mem::vec_with_capacity(')
+            last = mo.end()
+            counts['R20.alloc_site'] += 1
+        else:
+            ob = mo.end() - 1
+            cb = match_close(m, ob, '(', ')')
+            recv, meth = mo.group(1), mo.group(2)
+            out.append(src[last:mo.start()])
+            out.append('crate::mem::vec_%s(&mut %s, %s)' % ('resize' if meth == 'resize' else 'reserve', recv, src[ob + 1:cb]))
+            last = cb + 1
+            counts['R20.alloc_site'] += 1
+    out.append(src[last:])
+    return ''.join(out)
+
+
 def r13(src, counts):
     """`impl<W> Write for Stream<W>` becomes an inherent impl (`pub fn write`, `pub fn flush`): the
     methods keep their bodies, only the trait-ness is dropped, so that their contracts can speak about
@@ -476,6 +528,6 @@ def extract_file(path, modpath):
     """Return (rewritten_source, counts)."""
     counts = Counter()
     src = open(path).read()
-    for rule in (r1, r2, r3, r4, r5, r6, r7, r8, r9, r10, r11, r12, r13, r16, r17, r18, r19, r15):
+    for rule in (r1, r2, r3, r4, r5, r6, r7, r8, r9, r10, r11, r12, r13, r16, r17, r18, r19, r20, r15):
         src = rule(src, counts)
     return src, counts
